@@ -234,13 +234,26 @@ Ltac use_pcs :=
   repeat match goal with
   | H : spcs _ _ = _ |- _ => rewrite H in *
   | H : wpcs _ _ = _ |- _ => rewrite H in *
+  | H : mbox _ _ = _ |- _ => rewrite H in *
   end.
 
-Ltac lens := rewrite ?len_app, ?len_cons, ?len_nil in *.
+Lemma len_nil_t : len (@nil task) = 0.
+Proof. reflexivity. Qed.
+Lemma len_cons_t (x : task) l : len (x :: l) = len l + 1.
+Proof. apply len_cons. Qed.
+Lemma len_app_t (a b : list task) : len (a ++ b) = len a + len b.
+Proof. apply len_app. Qed.
+
+Ltac lens := rewrite ?len_app_t, ?len_cons_t, ?len_nil_t in *.
 
 (* the thread at the updated index is in range: the out-of-range fields *)
 Ltac f_range := idx_goal; [intros; exfalso; lia | auto].
-Ltac f_hold := idx_goal; [cbn [wk_items whold]; lens; try lia | auto].
+Ltac f_hold :=
+  try match goal with
+      | Hh : forall k, len (wk_items (wpcs ?st k)) <= whold (wpcs ?st k), Hw : wpcs ?st ?k = _ |- _ =>
+          let H := fresh in pose proof (Hh k) as H; rewrite Hw in H; cbn [wk_items whold] in H
+      end;
+  idx_goal; [cbn [wk_items whold]; cbn [app concat] in *; lens; try lia | auto].
 Ltac f_sched := idx_goal; [intros; use_pcs; try discriminate; try congruence | auto].
 Ltac f_sum := pose_sums; use_pcs; cbn [shold whold] in *; lens; lia.
 
@@ -282,7 +295,6 @@ Proof.
       rewrite len_app in Hh; rewrite Hw; cbn [whold]; split; try reflexivity; lia. }
   destruct Hlen as [Hlen Hwh].
   destruct rest as [|b rest']; destruct A; constructor; acct_fields.
-  idx_goal; [cbn [wk_items whold]; cbn [concat] in Hlen; lia | auto].
 Qed.
 
 (* logging handled items does not touch the accounting *)
@@ -300,4 +312,101 @@ Proof.
     + destruct A; constructor; acct_fields.
     + destruct ch; destruct (mbox st k) eqn:Hm; try exact A; destruct A; constructor; acct_fields.
   - (* WConsumeShard *) destruct A; constructor; acct_fields.
-  - (* WConsume *) Show.
+  - (* WConsume *)
+    pose proof (units_concat c t_b items) as Hcat. unfold advance.
+    destruct (units c t_b items) as [|b0 rest] eqn:Hu; destruct A; constructor; acct_fields.
+    idx_goal; [cbn [wk_items whold]; change (b0 ++ concat rest) with (concat (b0 :: rest)); rewrite Hcat; lia | auto].
+  - (* WDisp *)
+    assert (Hadv : forall st', Acct c st' -> wpcs st' k = wpcs st k -> Acct c (advance k n rest st')).
+    { intros st' A' Hw'. apply acct_advance; [exact Hk | exact A' |]. left. rewrite Hw', Hw. eauto. }
+    assert (Hack : forall x cur', cur = x :: cur' ->
+              Acct c (set_wpc k (WDisp n cur' curall rest)
+                (drop_items [x] (if sclosed st (t_s x) then st
+                   else set_wire (wire st ++ [HWire (t_s x) 0 (t_q x) (now st)]) st)))).
+    { intros x cur' ->. pose proof (a_hold c st A k) as Hh. rewrite Hw in Hh. cbn [wk_items whold] in Hh.
+      cbn [app] in Hh. lens.
+      destruct (sclosed st (t_s x)); destruct A; constructor; acct_fields;
+        (idx_goal; [cbn [wk_items whold]; lens; lia | auto]). }
+    assert (Hdef : Acct c match cur with
+                          | [] => advance k n rest st
+                          | x :: cur' => set_wpc k (WDisp n cur' curall rest)
+                              (drop_items [x] (if sclosed st (t_s x) then st
+                                 else set_wire (wire st ++ [HWire (t_s x) 0 (t_q x) (now st)]) st))
+                          end).
+    { destruct cur as [|x cur']; [apply Hadv; [exact A | reflexivity] | apply Hack; reflexivity]. }
+    destruct ch; try exact Hdef.
+    + (* CFail *) destruct A; constructor; acct_fields.
+    + (* CPanic *) apply Hadv; [apply acct_drop; exact A | reflexivity].
+  - (* WErr *)
+    destruct toclose as [|s0 tc].
+    + apply acct_advance; [exact Hk | apply acct_drop; exact A |]. right. sp. rewrite Hw. eauto.
+    + destruct A; constructor; acct_fields.
+  - (* WComplete *)
+    destruct (r =? 0) eqn:Hr; ltb_hyp; destruct A; constructor; acct_fields.
+  - (* WFinish *)
+    destruct (mbox st k) eqn:Hm.
+    + destruct A; constructor; acct_fields.
+    + destruct (mclosed st) eqn:Hmc.
+      * exfalso. destruct (acct_zero c st k A) as [Hz _].
+        { apply (a_drained c st A). apply (a_mclosed c st A). exact Hmc. }
+        rewrite Hz in Hm. discriminate.
+      * destruct A; constructor; acct_fields.
+Qed.
+
+Ltac f_dpc :=
+  let Hc := fresh in let d := fresh "d" in
+  intros Hc d;
+  match goal with
+  | |- context [upd _ ?k _ d] => by_index d k
+  | _ => idtac
+  end;
+  try exact I; try discriminate;
+  match goal with H : closed _ = false -> forall d, _ |- _ => apply (H Hc) end.
+
+Lemma acct_drain c st d timeout : Acct c st -> Acct c (drain_step d timeout st).
+Proof.
+  intros A. unfold drain_step. destruct (dpcs st d) eqn:Hd; try exact A.
+  - (* DSet *) destruct A; constructor; acct_fields.
+  - (* DOnce *)
+    assert (Hcl : closed st = true).
+    { destruct (closed st) eqn:E; [reflexivity|]. pose proof (a_dpc c st A E d) as H. rewrite Hd in H. contradiction. }
+    destruct A; constructor; acct_fields.
+    + intro Hx. split; [reflexivity | apply a_drained0; exact Hx].
+    + intros _. exact Hcl.
+    + intros Hc; rewrite Hcl in Hc; discriminate.
+  - (* DWait *)
+    assert (Hcl : closed st = true).
+    { destruct (closed st) eqn:E; [reflexivity|]. pose proof (a_dpc c st A E d) as H. rewrite Hd in H. contradiction. }
+    assert (Hret : forall ok, Acct c (drain_return d t0 stop ok st)).
+    { intro ok. unfold drain_return. destruct stop; destruct A; constructor; acct_fields;
+        intros Hc; rewrite Hcl in Hc; discriminate. }
+    destruct (drained st); [apply Hret|]. destruct timeout; [apply Hret|exact A].
+Qed.
+
+Lemma acct_stepT c st e : cfg_ok c -> Acct c st -> Acct c (stepT c st e).
+Proof.
+  intros Hc A. destruct e; cbn [stepT].
+  - apply acct_send. exact A.
+  - destruct (s <? c_nsess c)%nat eqn:Hs; [|exact A]. ltb_hyp. apply acct_sub; assumption.
+  - destruct (k <? c_shards c)%nat eqn:Hk; [|exact A]. ltb_hyp. apply acct_work; assumption.
+  - (* EDrainCall *) destruct (dpcs st d) eqn:Hd; try exact A.
+    destruct A; constructor; acct_fields. f_dpc.
+  - apply acct_drain. exact A.
+  - (* EWaiter *) destruct (dstarted st && negb (drained st) && (admitted st =? 0)) eqn:Hw; [|exact A].
+    ltb_hyp. destruct A; constructor; acct_fields. intros _. split; assumption.
+  - (* ECloser *) destruct (cstarted st && drained st && negb (mclosed st)) eqn:Hw; [|exact A].
+    ltb_hyp. destruct A; constructor; acct_fields. intros _. assumption.
+  - (* EClose *) destruct (s <? c_nsess c)%nat; [|exact A]. destruct A; constructor; acct_fields.
+  - (* EPush *) destruct ((s <? c_nsess c)%nat && negb (w =? 0)); [|exact A].
+    destruct (sclosed st s); destruct A; constructor; acct_fields.
+Qed.
+
+Lemma acct_step c st e : cfg_ok c -> Acct c st -> Acct c (step c st e).
+Proof. intros Hc A. rewrite step_eq. apply acct_stepT; [exact Hc|]. apply acct_tick. exact A. Qed.
+
+Lemma acct_run c evs : cfg_ok c -> Acct c (run c evs).
+Proof.
+  intro Hc. unfold run. rewrite <- fold_left_rev_right.
+  induction (rev evs) as [|e l IH]; cbn [fold_right]; [apply acct_init|].
+  apply acct_step; assumption.
+Qed.
